@@ -126,6 +126,23 @@ class C18(Prop):
     def observe(self, ctx, name, lines, results):
         """spec-level comparison (accept-all consoles): merged calls = capped runs, merged again"""
         out = []
+        if name == "locked-std-streams":
+            # `wlk`: what reaches the real stdout / stderr is the console calls in ANSI framing (C17); whatever the framing,
+            # its visible text (Spec/Strip) must be the visible text of the input: every run once, in order, no escape byte
+            # passed on as text -- also when the stream is locked between the two writes
+            from .. import core as _core
+            idx = [i for i, l in enumerate(lines) if l.startswith("wlk ")]
+            inputs = ["".join(x for x in lines[i].split(" ")[2:4] if x != "-") or "-" for i in idx]
+            want = _core.run_parallel([ctx["driver"], "spec"], ["sbcat " + d for d in inputs], "C18w")
+            for label, _ in ctx["impls"]:
+                got_raw = [results["impl-" + label][i] for i in idx]
+                ok = [all(c in "0123456789abcdef-" for c in g) for g in got_raw]
+                got = _core.run_parallel([ctx["driver"], "spec"], ["sbcat " + (g if o else "-") for g, o in zip(got_raw, ok)], "C18g")
+                for j, i in enumerate(idx):
+                    if (not ok[j] or got[j] != want[j]) and len(out) < 5:
+                        out.append({"stream": name, "case": lines[i], "build": label, "impl": got_raw[j],
+                                    "spec": "visible text " + want[j], "model": results["model"][i]})
+            return out
         for label, _ in ctx["impls"]:
             for i, l in enumerate(lines):
                 sp = results["spec"][i]
